@@ -89,7 +89,7 @@ theorem isentrope_density_ig {g ws p0 r0 u0 lo : ℝ} {R U : ℝ → ℝ} (hg : 
     rw [odeR_ig] at hR
     have hdiv := hR.div hQ hQpos.ne'
     refine hdiv.congr_deriv ?_
-    simp only [odeArgs, epv_tree, epv_leaf]
+    simp only [odeArgs, Bridge.Riem.odeIG_drdp_eq]
     rw [Real.sq_sqrt (by positivity), Real.sq_sqrt (by positivity)]
     field_simp
     ring
@@ -237,7 +237,7 @@ theorem rcr_root_lt_vacuum (q : Prob) (hq : q.Admissible) {px : ℝ} (hpx : 0 < 
     q.ur ≤ uRCVR q q.pr := by
   obtain ⟨hpl, hrl, hgl, hpr, hrr, hgr⟩ := id hq
   rw [RCR_eq, rare_eq, rare_eq] at h0
-  simp only [uRCVR, epv_tree, epv_leaf]
+  rw [uRCVR_eq]
   have h1 : 0 < (px / q.pr) ^ ((q.gr - 1) / 2 / q.gr) := Real.rpow_pos_of_pos (by positivity) _
   have h2 : 0 < (px / q.pl) ^ ((q.gl - 1) / 2 / q.gl) := Real.rpow_pos_of_pos (by positivity) _
   have a1 : 0 ≤ 2 * Real.sqrt (q.gr * q.pr / q.rr) / (q.gr - 1) := by
